@@ -143,6 +143,9 @@ func listingOrder(sn *chain.Snapshot, sh ordertypes.Shard) (ordertypes.Order, bo
 func (cfg *LifeCfg) genSize(t *rapid.T) uint64 {
 	switch rapid.IntRange(0, 5).Draw(t, "sizeClass") {
 	case 0:
+		if cfg.MinSize < 200 {
+			return rapid.Uint64Range(cfg.MinSize, 200).Draw(t, "size")
+		}
 		return rapid.Uint64Range(cfg.MinSize, 10_000).Draw(t, "size")
 	case 1:
 		return uint64(rapid.SampledFrom([]int{999_999, 1_000_000, 1_000_001, 2_500_000}).Draw(t, "size"))
@@ -263,6 +266,16 @@ func (cfg *LifeCfg) GenStoreUpdate(t *rapid.T, s *Sim) *Action {
 	a.Alias = m.Alias
 	a.Cid = CidB
 	a.Op = uint32(rapid.IntRange(1, 2).Draw(t, "op"))
+	for _, oid := range m.Orders {
+		if o, ok := s.Last.Orders[oid]; ok && o.Operation == 3 && len(m.Commits) > 1 {
+			// the latest version has been renewed: a force-push now settles several orders at once
+			a.Op = uint32(rapid.SampledFrom([]int{2, 2, 2, 1}).Draw(t, "opAfterRenew"))
+			if a.Op == 2 {
+				s.Label("force-push-after-renew-tried")
+			}
+			break
+		}
+	}
 	a.Size = cfg.genSize(t)
 	a.Replica = int32(rapid.IntRange(1, cfg.MaxRep).Draw(t, "replica"))
 	a.Duration = cfg.genDur(t)
